@@ -611,9 +611,27 @@ func runInBubble(t *testing.T, f func(), run *Run) (leaked bool) {
 				// stacks say who waits for whom
 				buf := make([]byte, 1<<20)
 				buf = buf[:runtime.Stack(buf, true)]
+				// only the goroutines of this run's bubble (the newest one);
+				// bubbles of earlier runs may have left parked goroutines behind
+				all := strings.Split(string(buf), "\n\n")
+				newest := -1
+				bubbleOf := func(g string) int {
+					i := strings.Index(g, "synctest bubble ")
+					if i < 0 {
+						return -1
+					}
+					n := 0
+					fmt.Sscanf(g[i+len("synctest bubble "):], "%d", &n)
+					return n
+				}
+				for _, g := range all {
+					if b := bubbleOf(g); b > newest {
+						newest = b
+					}
+				}
 				var keep []string
-				for _, g := range strings.Split(string(buf), "\n\n") {
-					if strings.Contains(g, "synctest") && !strings.Contains(g, "testing.tRunner") {
+				for _, g := range all {
+					if bubbleOf(g) == newest {
 						keep = append(keep, g)
 					}
 				}
